@@ -71,7 +71,8 @@ def get_params(o, exact_clt=False):
         return [float(o.mean), float(o.stddev)]
     if exact_clt and getattr(o, "_verif_probs", None) is not None:
         return [float(x) for x in np.asarray(o._verif_probs).reshape(-1)]
-    return [float(x) for x in np.exp(np.asarray(o.params, dtype=np.float64)).reshape(-1)]
+    # BinaryCLT.em_step itself works with np.exp(self.params) in float32
+    return [float(x) for x in np.exp(np.asarray(o.params, dtype=np.float32)).reshape(-1)]
 
 
 def snapshot(objs, exact_clt=False):
@@ -219,7 +220,10 @@ class Setup:
         for o, p in zip(objs, snap):
             if kind_of(o) == "gauss":
                 v = int(o.scope[0])
-                tab = C.coq_list([f"({C.zlit(c)}, {C.qlit(round_bits(G.gauss_pdf(x, p[0], p[1])))})" for c, x in enumerate(self.points[v])])
+                ds = [gauss_pdf_frac(x, p[0], p[1]) for x in self.points[v]]
+                if any(d is None for d in ds):
+                    return None
+                tab = C.coq_list([f"({C.zlit(c)}, {C.qlit(d)})" for c, d in enumerate(ds)])
                 items.append(f"(({C.qlit(p[0])}, {C.qlit(p[1])}, {v}%nat), {tab})")
         return C.coq_list(items)
 
@@ -231,6 +235,18 @@ def round_bits(x, bits=20):
         return x
     m, e = math.frexp(x)
     return math.ldexp(round(m * 2 ** bits) / 2 ** bits, e)
+
+
+def gauss_pdf_frac(x, mu, sd):
+    """N(mu, sd^2) density at x as an exact rational m * 2^k (m rounded to 20 bits): computed through the
+    logarithm so that densities far below the float64 range (narrow leaves, distant points) do not
+    underflow to 0 — the library works in the log-domain and has no such underflow."""
+    a = -0.5 * ((x - mu) / sd) ** 2 - math.log(sd) - 0.5 * math.log(2.0 * math.pi)
+    k = math.floor(a / math.log(2.0))
+    if k < -4000:
+        return None   # outside the range the linear-domain model run can represent
+    m = round_bits(math.exp(a - k * math.log(2.0)))
+    return Fraction(m) * (Fraction(2) ** k)
 
 
 def leaf_lik(o, p, row):
@@ -456,7 +472,7 @@ def main(tier, seed, replay=None):
     files = []; metas = []
     body = list(HEADER); names = []; cur = []
     dist = dict(circuits=0, iterations=0, random_init=0, given_init=0, leaf_kinds={}, nodes=[], batch_sizes={}, etas=[],
-                chained=0, oracle_checked_iterations=0)
+                chained=0, oracle_checked_iterations=0, skipped_density_below_model_range=0)
 
     def flush():
         nonlocal body, names, cur
@@ -530,14 +546,19 @@ def main(tier, seed, replay=None):
             names.append(f"{base}_i"); cur.append(dict(info=info, what="init", objs=objs, before=pre, after=snaps[0], k=0))
         for k in range(n_iter):
             exact = exactly_normalised(objs, snaps[k]) and not S.points
-            body.append(f"Definition {base}_{k} := run_ecase (Build_ecase\n  {etable_coq(objs, snaps[k])}\n  {S.xs_coq()}\n  {S.gd_coq(objs, snaps[k])}\n"
-                        f"  {C.qlit(eta)} {S.rows_coq(batches[k])}\n  {exp_coq(snaps[k + 1])}\n  {'true' if S.points else 'false'} {'true' if exact else 'false'} {S.doms_coq()} {S.cont_coq()}).")
+            gd = S.gd_coq(objs, snaps[k])
+            if gd is None:   # a Gaussian leaf so narrow that a data point's density is below 2^-4000
+                dist["skipped_density_below_model_range"] += 1
+                continue
+            body.append(f"Definition {base}_{k} := run_ecase (Build_ecase\n  {etable_coq(objs, snaps[k])}\n  {S.xs_coq()}\n  {gd}\n"
+                        f"  {C.qlit(eta)} {S.rows_coq(batches[k])}\n  {exp_coq(snaps[k + 1])}\n  {'false' if exact else 'true'} {'true' if exact else 'false'} {S.doms_coq()} {S.cont_coq()}).")
             names.append(f"{base}_{k}")
             cur.append(dict(info=info, what="iteration", objs=objs, before=snaps[k], after=snaps[k + 1], k=k + 1,
                             batch=[int(j) for j in batches[k]], rows=[S.data[j] for j in batches[k]], eta=eta, exact=exact,
                             oracle_bad=orc.get(k + 1)))
             dist["batch_sizes"][len(batches[k])] = dist["batch_sizes"].get(len(batches[k]), 0) + 1
-        if not rinit and not S.points and len(objs) <= 10 and exactly_normalised(objs, snaps[0]):
+        if (not rinit and not S.points and len(objs) <= 10 and len(batches[0]) <= 8 and exactly_normalised(objs, snaps[0])
+                and not any(kind_of(o) == "clt" for o in objs)):
             # the exact rationals grow quickly: chain the first two iterations only
             bs = C.coq_list([S.rows_coq(b) for b in batches[:2]])
             body.append(f"Definition {base}_ch := run_ccase (Build_ccase\n  {etable_coq(objs, snaps[0])}\n  {C.qlit(eta)} {bs}\n  {exp_coq(snaps[2])} {S.doms_coq()}).")
